@@ -471,6 +471,24 @@ func (h *hist) nextStep() *step {
 				continue
 			}
 			name := h.fresh("t")
+			if rnd.Intn(3) == 0 {
+				// a homonym: a name another database already uses, or the name of an information_schema table
+				cands := []string{"events", "tables", "columns"}
+				for on, os := range h.cat.Schemas {
+					if on == sn {
+						continue
+					}
+					for n := range os.Tables {
+						if n != "parent" {
+							cands = append(cands, n)
+						}
+					}
+				}
+				sort.Strings(cands)
+				if c := cands[rnd.Intn(len(cands))]; !nameTaken(s, c) {
+					name = c
+				}
+			}
 			nt := h.plainTable(s, name)
 			ddl := strings.Replace(nt.SQL(), "CREATE TABLE "+g9blib.Q(name), "CREATE TABLE "+g9blib.Q(sn)+"."+g9blib.Q(name), 1)
 			return &step{"create-table", ddl, func() { s.Tables[name] = nt }}
@@ -484,6 +502,14 @@ func (h *hist) nextStep() *step {
 				continue
 			}
 			nn := h.fresh("r")
+			if cur := h.cat.Schemas["d"]; sn != "d" && cur != nil && nameTaken(cur, tn) {
+				// RENAME TABLE resolves both names in the session's current database (d) whatever their qualifier
+				// (planbuilder.buildRenameTable drops it), so with a homonym in d it renames that table instead: a DDL
+				// defect outside this property, which the model cannot follow. Without the homonym the statement is rejected.
+				r := h.r
+				r.Count("rename-table-qualifier-ignored-skipped", 1)
+				continue
+			}
 			return &step{"rename-table", "RENAME TABLE " + qt + " TO " + g9blib.Q(sn) + "." + g9blib.Q(nn), func() {
 				delete(s.Tables, tn)
 				t.Name = nn
@@ -860,6 +886,21 @@ func (h *hist) nextStep() *step {
 		}
 	}
 	return nil
+}
+
+// nameTaken reports whether a table or view of the schema already has the name, case-insensitively.
+func nameTaken(s *g9blib.MSchema, name string) bool {
+	for n := range s.Tables {
+		if strings.EqualFold(n, name) {
+			return true
+		}
+	}
+	for n := range s.Views {
+		if strings.EqualFold(n, name) {
+			return true
+		}
+	}
+	return false
 }
 
 func parentModel() *g9blib.Table {
